@@ -58,7 +58,7 @@ theorem run_in_language (sc : Scenario) (race : Bool) : holds sc (run repaired s
       · -- the signal arrived during start-up
         simp only [hc, if_true]
         apply lemma_shutdown sc race false _ _ _ hf hl (lemma_naRounds sc)
-        refine ⟨⟨false, rfl⟩, rfl, rfl, kindsIn_nil _, kindsIn_nil _, kindsIn_nil _, by simp [ids_nil], ?_,
+        refine ⟨⟨false, rfl⟩, rfl, rfl, kindsIn_nil _, kindsIn_nil _, kindsIn_nil _, rfl, by simp [ids_nil], ?_,
           rfl, rfl, rfl, rfl⟩
         rcases hcan hc with h | h
         · cases h
@@ -70,7 +70,14 @@ theorem run_in_language (sc : Scenario) (race : Bool) : holds sc (run repaired s
         have hdead := inv.dead rfl
         simp only [hdead, Bool.false_eq_true, if_false]
         apply lemma_shutdown sc race true _ _ _ hf hl (inv.res rfl)
-        refine ⟨⟨false, rfl⟩, rfl, rfl, inv.preK, kindsIn_sigIf _ _ (by simp), inv.postK, inv.sorted, ?_,
+        have hpost : (roundsFrom repaired sc.nReload ⟨[], [], false, false, []⟩ 0 sc.rounds).post.all
+            (isEnvReload sc) = true := by
+          apply List.all_eq_true.mpr
+          intro e he
+          obtain ⟨r', rd', h1, h2, h3⟩ := roundsFrom_post_env repaired sc.nReload sc.rounds _ 0 sc.rounds rfl
+            (by intro e he; cases he) e he
+          simp [isEnvReload, h1, h2, h3]
+        refine ⟨⟨false, rfl⟩, rfl, rfl, inv.preK, kindsIn_sigIf _ _ (by simp), inv.postK, hpost, inv.sorted, ?_,
           rfl, rfl, rfl, rfl⟩
         simp only [Segs.before, List.any_append, Bool.or_eq_true]
         cases hcc : (roundsFrom repaired sc.nReload ⟨[], [], false, false, []⟩ 0 sc.rounds).cancelled
@@ -91,7 +98,7 @@ theorem current_run_in_language (sc : Scenario) (race : Bool) : holds sc (run cu
 /-! ### the clauses of the statement, read off the main theorem -/
 
 theorem lemma_unpack {sc : Scenario} {o : Obs} (h : holds sc o = true) :
-    returnsOnce o.log = true ∧ startsOk sc o.log = true ∧ readiesOk sc o.log = true ∧ reloadsOk o = true ∧
+    returnsOnce sc o.log = true ∧ startsOk sc o.log = true ∧ readiesOk sc o.log = true ∧ reloadsOk o = true ∧
     (if (sc.starts.find? startFails).isNone && sc.listen == Listen.ok then shutdownOk sc o
      else failedStartOk sc o (sc.starts.find? startFails)) = true := by
   unfold holds at h
@@ -301,8 +308,9 @@ theorem requests_complete_unless_timeout (sc : Scenario) (race : Bool) (hs : sc.
     · exact h5
 
 /-- **Start returns only afterwards**: `Start` returns exactly once, and the only things that can follow
-    in the log are reload calls of the environment. -/
-theorem start_returns_last (sc : Scenario) (race : Bool) : returnsOnce (run repaired sc race).log = true :=
+    in the log are hooks of reload calls the environment made itself (never of a reload the lifecycle
+    started on SIGHUP: that is finished before the shutdown sequence begins). -/
+theorem start_returns_last (sc : Scenario) (race : Bool) : returnsOnce sc (run repaired sc race).log = true :=
   (lemma_unpack (run_in_language sc race)).1
 
 /-- **Reloads are serialised** (in the lifecycle model): the reload events of different rounds never
